@@ -21,6 +21,8 @@ structure Request where
   header      : List (Bytes × List Bytes)    -- Header, keys canonical
   remoteAddr  : Bytes                        -- RemoteAddr
   cookieLines : List Bytes                   -- the values of the Cookie header lines
+  method      : Bytes := []                  -- Method
+  path        : Bytes := []                  -- URL.Path
   deriving Inhabited
 
 abbrev URL := Request                         -- `r.URL`: only RawQuery is consulted
@@ -35,6 +37,8 @@ structure Cookie where
   deriving Inhabited
 
 def Request_URL (r : Request) : URL := r
+def Request_Method (r : Request) : Bytes := r.method
+def URL_Path (u : URL) : Bytes := u.path
 def Request_Header (r : Request) : Header := r.header
 def Request_RemoteAddr (r : Request) : Bytes := r.remoteAddr
 def Cookie_Value (c : Cookie) : Bytes := c.value
